@@ -1,7 +1,7 @@
 (* C05 — Filter logic, existence tests and @/$ scoping.  Statements only. *)
 From Coq Require Import List NArith ZArith Bool.
 From JP Require Import Base Ast Eval ValueModel Spec Known WellFormed Regex Entry DataFacts SelFacts
-  ValueFacts Refine Order RegexFacts SpecSteps Build Purity GenParse GenBuild FragParse FilterParse FilterBuild StringLevel.
+  ValueFacts Refine Order RegexFacts SpecSteps Build Purity GenParse GenBuild FragParse FilterParse FilterBuild StringLevel SingularFacts.
 Import ListNotations.
 
 Notation holds := (r_holds rx_spec_full rx_spec_sub jeqb false).
@@ -96,6 +96,25 @@ Theorem C05_existence : forall root l neg v,
   holds root (FAtom (ATest (TRel l) neg)) v
   = xorb neg (match r_segments rx_spec_full rx_spec_sub jeqb false root l [([], v)] with [] => false | _ => true end).
 Proof. intros. autorewrite with rsteps. reflexivity. Qed.
+(* the same name/index path written as an operand of a comparison and as a query selects the same nodes (from @ and from $), and so
+   the existence test `@.path` holds exactly when the operand `@.path` is not Nothing - for every document and current node *)
+Theorem C05_operand_path_is_the_query : forall root l cur,
+  r_squery root (SqCur l) cur = r_segments rx_spec_full rx_spec_sub jeqb false root (sq_segs l) [([], cur)]
+  /\ r_squery root (SqRoot l) cur = r_segments rx_spec_full rx_spec_sub jeqb false root (sq_segs l) [([], root)].
+Proof. exact (squery_as_segments rx_spec_full rx_spec_sub jeqb false). Qed.
+Print Assumptions C05_operand_path_is_the_query.
+Theorem C05_existence_iff_operand_not_nothing : forall root l cur,
+  as_logical (r_test rx_spec_full rx_spec_sub jeqb false root (TRel (sq_segs l)) cur) = true
+  <-> r_comparable rx_spec_full rx_spec_sub jeqb false root (CSq (SqCur l)) cur <> None.
+Proof. exact (existence_iff_operand rx_spec_full rx_spec_sub jeqb false). Qed.
+Print Assumptions C05_existence_iff_operand_not_nothing.
+(* both sides occur: @.a[0] on {"a":[null]} exists although its value is null; on {"a":[]} it does not *)
+Example C05_existence_operand_example :
+  let l := [SqName [97]%N; SqIndex 0] in
+  r_comparable rx_spec_full rx_spec_sub jeqb false JNull (CSq (SqCur l)) (JObj [([97]%N, JArr [JNull])]) = Some JNull
+  /\ r_comparable rx_spec_full rx_spec_sub jeqb false JNull (CSq (SqCur l)) (JObj [([97]%N, JArr [])]) = None.
+Proof. vm_compute. split; reflexivity. Qed.
+
 (* @ is the node under test, $ is the document root, at every nesting level *)
 Theorem C05_scoping : forall root l v,
   r_test rx_spec_full rx_spec_sub jeqb false root (TRel l) v
